@@ -179,7 +179,12 @@ fn run_one(
 ) -> Option<Vec<Violation>> {
     Some(match engine {
         "wal" => {
-            let cfg = wal::Config { focus: focus.to_string(), max_buf: 64 << 10, enumerate_cuts: true };
+            let cfg = wal::Config {
+                focus: focus.to_string(),
+                max_buf: 64 << 10,
+                enumerate_cuts: true,
+                unordered: !args.iter().any(|a| a == "--no-unordered"),
+            };
             wal::run(cat, &cfg, stats, rs)
         }
         "skew" => {
